@@ -17,6 +17,7 @@ Nothing in here imports j1939.
 """
 import sys
 import heapq
+import weakref
 import threading
 import queue as _queue_mod
 import time as _time_mod
@@ -289,6 +290,10 @@ class SimThread(RealThread):
             sim.block_current(until=sim.now + 0.001)
 
 
+_ALL_QUEUES = weakref.WeakSet()     # queues that outlive a case (created at import / class level by the code under test) must not keep
+                                    # waiters of a finished simulation
+
+
 class VQueue:
     """queue.Queue look-alike whose blocking get waits in virtual time"""
 
@@ -299,6 +304,7 @@ class VQueue:
         self.putters = []
         self.n_put = 0
         self.n_get_block = 0
+        _ALL_QUEUES.add(self)
 
     # -- non blocking part --
     def put(self, item, block=True, timeout=None):
@@ -636,6 +642,10 @@ def new_sim(seed=0, spin_limit=20000):
     if CUR is not None:
         end_sim()
     CUR = Sim(seed, spin_limit)
+    for q in list(_ALL_QUEUES):
+        if q.waiters or q.putters:
+            del q.waiters[:]
+            del q.putters[:]
     return CUR
 
 
